@@ -63,6 +63,24 @@ CLAIMED = {
    text="Model.Run on 250+ small graphs (1-3 nodes over an operator alphabet chosen to exercise every binding rule, multi-output RNN/GRU/LSTM nodes with arbitrary/permuted/omitted/empty output names, skipped optional inputs, initializers that are also graph inputs, dangling/late/unproduced names, unknown operators, Constants) with every tensor element symbolic, compared with an independent evaluator in the harness that binds results by position in its own environment: same error-ness, exactly the declared outputs, each term-equal to the composition.",
    note="Graphs with more than 3 nodes and operators outside the alphabet are outside; protobuf decoding is not involved (the harness builds the decoded struct)." + NOTE_COMMON,
    design="DESIGN.md section 4, C01"),
+ "C02": dict(
+   text="One inductive step plus a concrete history, decided symbolically for every input value: for single-node models of all 55 operators (every weight-capable input once as caller tensor, once as initializer) and three multi-node graphs: Run(A), a failing Run, Run(B) (other values / another batch size) compared with a freshly loaded model, Run(A) again with the very same tensor objects, and a Run fed with an output of the first; after every Run caller tensors and weights are compared with snapshots (shape, strides, dtype, all elements) and the interpreter's write monitor must have seen no write to them. A Run that writes nothing reachable from the Model or the caller's tensors starts from the state a fresh Model starts from, so the step covers histories of any length.",
+   note="Histories longer than five Runs are covered by the induction argument, not explored; sample .onnx files are covered operator by operator." + NOTE_COMMON,
+   design="DESIGN.md section 4, C02"),
+ "C16": dict(
+   text="Relational check in exact real arithmetic with every sample symbolic: Run(stack(s1..sN))[i] == Run(s_i) for N in {1,2,3}, forward and reversed batch order, on the repository's mlp/scaler/gru sample files (decoded natively, weights as exact rationals, gru with batch size == sequence length included) and 45 generated per-sample models with symbolic weights (Gemm/MatMul either side, Conv, elementwise vs weights, activations, Softmax over inner axes, batch-preserving reshapes, Gather, Transpose, RNN/GRU/LSTM, the Transpose-GRU-Squeeze-Transpose shape).",
+   note="Identity over the reals ('up to rounding'); last-axis Softmax with N>1 excluded (needs exp(a+b)=exp(a)exp(b); its numerical consequence is the C09 known finding); N>3 and ndm.onnx outside." + NOTE_COMMON,
+   design="DESIGN.md section 4, C16"),
+ "C17": dict(
+   category="other",
+   text="The schedule quantifier is discharged by reduction, not exploration: if a Run - for every input - writes nothing reachable from the Model nor any package-level variable, concurrent Runs with private inputs only read shared memory, hence (Go memory model) are race free and each computes what it computes alone. That sequential frame condition IS decided symbolically: on the C02 model set plus the mlp/scaler/gru sample files, the whole object graph reachable from the *Model (fields, decoded ModelProto, parameter map, weight metadata and data) and all package-level variables are put under the interpreter's write monitor; loading another model, three Runs and a failing Run must perform no store, map update or in-place tensor operation on them. A counterexample is confirmed natively either as a lasting state change or by go test -race on 8 goroutines.",
+   note="Not checked: the step from the frame condition to all interleavings (Go memory model), gorgonia's read-only API not writing its receiver, gorgonia's pools being goroutine safe. gonnx's SSA contains no go/select/channel instruction (they would abort the run)." + NOTE_COMMON,
+   technique="symbolic execution of NewModel/Run with a write monitor over the shared object graph (frame condition), SMT only for path feasibility; native confirmation by state fingerprint or go test -race",
+   design="DESIGN.md section 4, C17"),
+ "C18": dict(
+   text="Constructors with the environment (os.ReadFile, zip member, io.ReadAll, proto.Unmarshal) as nondeterministic stubs: every failure comes out as (nil, error), never a panic. NewModel on an arbitrary decoded message within bounds (opset versions as solver variables over all of int64, graph absent, initializers with symbolic data_type/dim/payload, value infos with holes): refused iff undecodable or highest opset != 13, with the unsupported-opset error. Run on graphs containing an operator type outside the opset (opaque string unequal to every literal) at every position, output used or not: fails with the unsupported-operator error.",
+   note="'Any byte string' through proto.Unmarshal is NOT decided: the protobuf runtime is not encodable; its result is modelled as an arbitrary well-typed message within the bounds, and native cross-validation runs feed garbage, truncated and the sample files through the real decoder. One known finding (typed-field fallback, shared with C12)." + NOTE_COMMON,
+   design="DESIGN.md section 4, C18"),
 }
 NA_REASON = "check not built yet (engine under construction in this session); will be claimed once its bounds run clean"
 checks = []
